@@ -268,6 +268,10 @@ def replaced_case(case):
     log = []
     Rec = make_rec(log)
     ts, sp, horizon = case['ts'], case['sup_prio'], 12
+    if case.get('eq_by_value'):
+        # system classes that compare by value (their id): the replacement equals the object it replaces
+        Rec.__eq__ = lambda a, b: isinstance(b, Core.System) and a.id == b.id
+        Rec.__hash__ = lambda a: hash(a.id)
     old = Rec('old', model, 3, 0, DEFAULT, case['f_old'], sid='sensor')
     new = Rec('new', model, case['p_new'], case['s_new'], case['s_new'] + 5, case['f_new'], sid='sensor')
     tail = Rec('tail', model, -1, 0, DEFAULT, 1)
@@ -307,6 +311,53 @@ def replaced_case(case):
     return tuple(log)
 
 
+def live_priority_case(case):
+    """A registered system's priority attribute is changed while it stays registered (where it then runs within a timestep
+    is nobody's promise), later it is removed and the same object registered again: at every timestep every registered
+    system whose window is open runs exactly once - no more, no less."""
+    reset_library()
+    model = new_model(seed=1)
+    log = []
+    Rec = make_rec(log)
+    head = Rec('head', model, 5, 0, DEFAULT, 1)
+    s = Rec('s', model, 2, 0, DEFAULT, case['freq'])
+    tail = Rec('tail', model, case['tail_prio'], 0, DEFAULT, 1)
+    for o in (head, s, tail):
+        model.systems.add_system(o)
+    reg = {'head', 's', 'tail'}
+    for t in range(9):
+        if t == case['t_change']:
+            s.priority = case['new_prio']
+        if t == case['t_remove']:
+            model.systems.remove_system('s')
+            reg.discard('s')
+        if t == case['t_back']:
+            model.systems.add_system(s)
+            reg.add('s')
+        n0 = len(log)
+        model.execute()
+        got = sorted(k for _, k in log[n0:])
+        want = sorted(k for k in reg if k != 's' or active(t, 0, DEFAULT, case['freq']))
+        if got != want or any(tt != t for tt, _ in log[n0:]):
+            raise Violation(f'timestep {t} (priority of s changed from 2 to {case["new_prio"]} at {case["t_change"]} while '
+                            f'registered, s removed at {case["t_remove"]}, registered again at {case["t_back"]}): systems that ran',
+                            expected=want, observed=[k for _, k in log[n0:]])
+    if model.timestep != 9:
+        raise Violation('clock after 9 single steps', expected=9, observed=model.timestep)
+    return tuple(log)
+
+
+def live_priority_cases():
+    for new_prio in (-3, 0, 3, 7):
+        for tail_prio in (-1, 1):
+            for t_change in (1, 2):
+                for t_remove in (t_change, t_change + 1, t_change + 2):
+                    for t_back in (t_remove, t_remove + 1, 99):
+                        for freq in (1, 2):
+                            yield {'leg': 'live_priority', 'new_prio': new_prio, 'tail_prio': tail_prio, 't_change': t_change,
+                                   't_remove': t_remove, 't_back': t_back, 'freq': freq}
+
+
 def replaced_cases():
     for ts in (0, 2, 4):
         for sp in (10, 3, 1):             # supervisor ahead of, level with (registered later), behind the retired system
@@ -315,6 +366,8 @@ def replaced_cases():
                     for steps in ([12], [3, 1, 1, 1, 1, 1, 4]):
                         yield {'leg': 'replaced', 'ts': ts, 'sup_prio': sp, 'f_old': f_old, 'p_new': p_new, 's_new': s_new,
                                'f_new': f_new, 'steps': steps}
+                    yield {'leg': 'replaced', 'ts': ts, 'sup_prio': sp, 'f_old': f_old, 'p_new': p_new, 's_new': s_new,
+                           'f_new': f_new, 'steps': [12], 'eq_by_value': True}
 
 
 def sweep_chunk(ctx, chunk):
@@ -567,6 +620,18 @@ def run(ctx):
                 if ctx.full():
                     return
         ctx.leg('replaced', cases=nr, note='a supervisor replaces a system under its id in the middle of a timestep')
+        nl = 0
+        for case in live_priority_cases():
+            ctx.traces += 1
+            nl += 1
+            try:
+                ctx.outcome(hbfs._guard(live_priority_case, case))
+                ctx.transitions += 9
+            except Violation as v:
+                ctx.report(case, v)
+                if ctx.full():
+                    return
+        ctx.leg('live_priority', cases=nl, note='priority attribute changed while registered, then removed and registered again')
     if ctx.violations or ctx.small:
         return
     h = MultiWithTwin(6 if ctx.tier == 'quick' else 9)
@@ -585,6 +650,9 @@ def replay(case):
         return
     if case['leg'] == 'replaced':
         hbfs._guard(replaced_case, case)
+        return
+    if case['leg'] == 'live_priority':
+        hbfs._guard(live_priority_case, case)
         return
     if case['leg'] == 'window_sweep':
         hbfs._guard(sweep_case, case)
